@@ -154,8 +154,8 @@ theorem applyRes_queue (cfg : Cfg) (pol : Policy) (step : Nat) (tickEv : Ev) (dc
     simp only [applyRes]
     split
     · simp
-    · simp
-    · split
+    all_goals
+      split
       · split <;> simp
       · simp
   | addCollected buf ev =>
